@@ -669,7 +669,7 @@ def ch_prheader(ctx, env) -> Channel:
 
 
 def gen_prheader_http(ctx, env, rng) -> list[dict]:
-    media = [m for m in env.media() if m["encrypted"] and m["stream"] in ("bbb", "mk")]
+    media = [m for m in env.media() if m["encrypted"] and m["stream"] in ("bbb", "mk", "va")]
     cases = []
     # regression: the licence URL with '&' (fixed defect) in every location
     amp = "http://lic.example/rights?a=1&b=2"
@@ -678,6 +678,9 @@ def gen_prheader_http(ctx, env, rng) -> list[dict]:
                       "drm": "playready", "version": None, "la": ["playready_la_url", amp]})
     cases.append({"kind": "prheader_http", "source": "manifest", "stream": "bbb", "manifest": "hand_made.mpd",
                   "mode": "vod", "drm": "playready", "version": None, "la": ["playready_la_url", amp]})
+    # video and audio adaptation sets with different key ids in one period
+    cases.append({"kind": "prheader_http", "source": "manifest", "stream": "va", "manifest": "hand_made.mpd",
+                  "mode": "vod", "drm": "playready", "version": None, "la": None})
     n_init = ctx.scale(60, 600)
     for _ in range(n_init):
         m = rng.choice(media)
@@ -690,7 +693,7 @@ def gen_prheader_http(ctx, env, rng) -> list[dict]:
                  "manifest_ef.mpd", "manifest_i.mpd"]
     for _ in range(ctx.scale(40, 400)):
         mf = rng.choice(manifests)
-        cases.append({"kind": "prheader_http", "source": "manifest", "stream": rng.choice(["bbb", "bbb", "mk"]),
+        cases.append({"kind": "prheader_http", "source": "manifest", "stream": rng.choice(["bbb", "mk", "va", "va"]),
                       "manifest": mf, "mode": "vod" if mf in VOD_ONLY else rng.choice(["vod", "live"]),
                       "drm": rng.choice(["playready", "playready-cenc", "playready-pro", "playready-cenc-pro", "all",
                                          "playready-pro-moov,marlin"]),
@@ -1069,14 +1072,15 @@ def gen_cp_cases(ctx, rng) -> list[dict]:
     mixed = lib.targeted_mixed_selections()
     rng.shuffle(mixed)
     sels += mixed[:ctx.scale(30, len(mixed))] + [lib.random_mixed_selection(rng) for _ in range(ctx.scale(10, 100))]
-    cases = []
+    cases = [{"kind": "cp", "route": "dash", "stream": "va", "manifest": mf, "mode": "vod", "drm": "all",
+              "version": None, "la": None} for mf in ("hand_made.mpd", "manifest_e.mpd")]
     rng.shuffle(sels)
     n = ctx.scale(105, len(sels) * 3)
     for i in range(n):
         drm = sels[i % len(sels)]
         route = "mps" if rng.random() < .2 else "dash"
         mf = "hand_made.mpd" if route == "mps" or rng.random() < .4 else rng.choice(manifests)
-        cases.append({"kind": "cp", "route": route, "stream": rng.choice(["bbb", "bbb", "mk"]),
+        cases.append({"kind": "cp", "route": route, "stream": rng.choice(["bbb", "mk", "va", "va"]),
                       "manifest": mf,
                       "mode": "vod" if mf in VOD_ONLY else rng.choice(["vod", "live"]), "drm": drm,
                       "version": rng.choice(lib.PR_VERSIONS),
@@ -1233,7 +1237,8 @@ def oracle_cp(env, c, res=None) -> list[dict]:
 
 def ch_cp_elements(ctx, env) -> Channel:
     ch = Channel("cp_elements", rule=(
-        "rendered manifests (7 templates, vod/live, /dash and /mps routes, streams bbb and two-key mk) for every "
+        "rendered manifests (7 templates, vod/live, /dash and /mps routes, streams bbb, two-key mk and va whose video "
+        "and audio adaptation sets use different key ids) for every "
         "subset of DRM systems x every subset of locations (+ all, all-<locs>, none, per-system mixes), "
         "playready__version none/1.0-4.0: the ContentProtection elements read with lxml vs the model's per-system "
         "hooks (contexts/playreadyHooks/clearkeyHooks/marlinHooks) and vs the property text (systems and locations "
